@@ -1072,6 +1072,7 @@ func child(lo, hi int, probeEvery int, out string) {
 		sv.mu.Unlock()
 		if werr != nil {
 			w.Put(core.Case{ID: fmt.Sprintf("run-%d", i), Kind: "run-hang", Coq: "", Note: "the uninterrupted run did not finish in 8 s", Input: map[string]any{"seed": core.Seed(), "index": i}})
+			w.Close()
 			os.Exit(4) // tainted process: the parent restarts after this run
 		}
 		seen := map[string]bool{}
